@@ -47,16 +47,23 @@ func (e *pdEngine) Rule() string {
 
 func (e *pdEngine) Gen(r *hlib.Rand, tier string) []string {
 	n := 8 + r.Intn(30)
-	var ops []string
+	var ops, hbs []string
 	for i := 0; i < n; i++ {
 		switch x := r.Intn(100); {
 		case x < 45:
+			if len(hbs) > 0 && r.Chance(25) {
+				// re-announce an earlier heartbeat byte for byte (a store repeats itself)
+				ops = append(ops, hlib.Pick(r, hbs))
+				continue
+			}
 			id := r.Intn(6) // 0 = invalid
 			a, b := rkey(r), rkey(r)
 			if !r.Chance(15) && len(b) > 0 && bytes.Compare(a, b) >= 0 {
 				a, b = b, a
 			}
-			ops = append(ops, fmt.Sprintf("pd.hb %d %s %s %d %d", id, hlib.Hex(a), hlib.Hex(b), 1+r.Intn(3), 1+r.Intn(3)))
+			hb := fmt.Sprintf("pd.hb %d %s %s %d %d", id, hlib.Hex(a), hlib.Hex(b), 1+r.Intn(3), 1+r.Intn(3))
+			hbs = append(hbs, hb)
+			ops = append(ops, hb)
 		case x < 55:
 			ops = append(ops, fmt.Sprintf("pd.rm %d", r.Intn(6)))
 		case x < 90:
@@ -64,9 +71,10 @@ func (e *pdEngine) Gen(r *hlib.Rand, tier string) []string {
 		case x < 95:
 			ops = append(ops, "pd.snap")
 		default:
-			ops = append(ops, "pd.restart", "pd.snap")
+			ops = append(ops, "pd.restart", "pd.snap", "pd.get "+hlib.Hex(rkey(r)))
 		}
 	}
+	ops = append(ops, "pd.restart", "pd.snap")
 	return ops
 }
 
@@ -165,7 +173,12 @@ func (e *pdEngine) Exec(ops []string) []string {
 			} else {
 				out[i] = strconv.FormatUint(resp.GetRegion().GetId(), 10)
 			}
-		case "pd.snap":
+		case "pd.snap", "pd.restart":
+			if f[0] == "pd.restart" {
+				st.Close()
+				open()
+				e.restarts++
+			}
 			var parts []string
 			for _, info := range cluster.RegionSnapshot() {
 				m := info.Meta
@@ -176,11 +189,6 @@ func (e *pdEngine) Exec(ops []string) []string {
 			} else {
 				out[i] = strings.Join(parts, ";")
 			}
-		case "pd.restart":
-			st.Close()
-			open()
-			e.restarts++
-			out[i] = "ok"
 		default:
 			out[i] = "bad-op"
 		}
@@ -767,7 +775,11 @@ func (e *catEngine) Exec(ops []string) []string {
 			id, _ := strconv.ParseUint(f[1], 10, 64)
 			st, _ := strconv.ParseUint(f[2], 10, 64)
 			out[i] = okErr(rs.UpdateRegionState(id, manifest.RegionState(st)))
-		case "cat.snap":
+		case "cat.snap", "cat.reopen":
+			if f[0] == "cat.reopen" {
+				closeAll()
+				open()
+			}
 			metas := rs.RegionMetas()
 			sort.Slice(metas, func(a, b int) bool { return metas[a].ID < metas[b].ID })
 			var parts []string
@@ -779,10 +791,6 @@ func (e *catEngine) Exec(ops []string) []string {
 			} else {
 				out[i] = strings.Join(parts, ";")
 			}
-		case "cat.reopen":
-			closeAll()
-			open()
-			out[i] = "ok"
 		case "cat.probe":
 			k := hlib.UnHex(f[1])
 			n := 0
